@@ -1,5 +1,6 @@
 import IV.Model.Proto
 import IV.Model.Rules
+import IV.Model.RulesText
 import IV.Gen.Responses
 open IV IV.Proto IV.Rules
 
@@ -234,6 +235,17 @@ def handleLine (s : DS) (fs : List String) : DS × String :=
       let r := ofTypes (getResponse st) missing showL
       (s, jlist (r.map (fun kv => jlist [jstr kv.1, jtop kv.2])))
     | _, _, _ => (s, "bad-op")
+  | ["text", missing, showf, plain] =>
+    -- HumanReadableFormat.show_description on the broker of the last `run`, restricted to the rules of the plain
+    -- type (`broker.get_by_type(rule)` compares the component type with `is`): summary counts and printed rules
+    match s.st, decBool missing, decStrs "," showf, decNats plain with
+    | some st, some missing, some showL, some plain =>
+      let inst := st.inst.filter (fun p => plain.contains p.1)
+      (s, jobj [("counts", jlist ((textLabels.filter (· ≠ sException)).map (fun t => jlist [jstr t, toString (textCount t inst)]))),
+                ("printed", match textPrinted missing showL inst with
+                   | some rows => jlist (rows.map (fun p => jlist [toString p.1, jstr p.2]))
+                   | none => "null")])
+    | _, _, _, _ => (s, "bad-op")
   | ["adapter", missing, failOnly, showArg] =>
     match decBool missing, decBool failOnly, decStrs "," showArg with
     | some m, some f, some a => (s, jlist ((adapterShow m f a).map jstr))
